@@ -678,3 +678,37 @@ pub fn natural_gmt(lon: i64) -> i64 {
     let h = (lon as f64 / 1e4 / 15.).round() as i64;
     h.clamp(-12, 12) * 3600
 }
+
+// ------------------------------------------------------------------------------------------
+// child processes with a time limit (C19, bin/conform): stdout / stderr go to files so that a long listing cannot block
+// on a full pipe; a process that does not end within the limit is killed and reported with exit code -7 ("hang")
+pub trait OutputT {
+    fn output_t(&mut self) -> std::io::Result<std::process::Output>;
+}
+
+impl OutputT for std::process::Command {
+    fn output_t(&mut self) -> std::io::Result<std::process::Output> {
+        use std::os::unix::process::ExitStatusExt;
+        static SEQ: std::sync::atomic::AtomicU64 = std::sync::atomic::AtomicU64::new(0);
+        let k = SEQ.fetch_add(1, std::sync::atomic::Ordering::SeqCst);
+        let base = std::env::temp_dir().join(format!("ipt-harness-{}-{}", std::process::id(), k));
+        let (po, pe) = (base.with_extension("out"), base.with_extension("err"));
+        let mut child = self.stdout(std::fs::File::create(&po)?).stderr(std::fs::File::create(&pe)?).spawn()?;
+        let deadline = std::time::Instant::now() + std::time::Duration::from_secs(120);
+        let status = loop {
+            if let Some(st) = child.try_wait()? {
+                break st;
+            }
+            if std::time::Instant::now() >= deadline {
+                let _ = child.kill();
+                let _ = child.wait();
+                break std::process::ExitStatus::from_raw((-7i32 & 0xff) << 8);
+            }
+            std::thread::sleep(std::time::Duration::from_millis(5));
+        };
+        let out = std::process::Output { status, stdout: std::fs::read(&po).unwrap_or_default(), stderr: std::fs::read(&pe).unwrap_or_default() };
+        let _ = std::fs::remove_file(&po);
+        let _ = std::fs::remove_file(&pe);
+        Ok(out)
+    }
+}
